@@ -9,20 +9,20 @@ From PyFatV Require Import Base.Bytes Base.PyEnv Gen.Pure Model.Codec Model.Dir 
 Import ListNotations.
 Open Scope Z_scope.
 
-Theorem C13_chain_bounded : forall fuel t fat i, (length (fst (chain_go fuel t fat i)) <= fuel)%nat.
+Theorem C13_chain_bounded : forall fuel t dm fat i, (length (fst (chain_go fuel t dm fat i)) <= fuel)%nat.
 Proof. exact chain_go_length. Qed.
 Print Assumptions C13_chain_bounded.
-Theorem C13_chain_in_fat : forall fuel t fat i c, In c (fst (chain_go fuel t fat i)) -> 0 <= c < lenZ fat /\ Gen.MIN_DATA_CLUSTER t <= c.
+Theorem C13_chain_in_fat : forall fuel t dm fat i c, In c (fst (chain_go fuel t dm fat i)) -> 0 <= c < lenZ fat /\ Gen.MIN_DATA_CLUSTER t <= c.
 Proof. exact chain_go_in_fat. Qed.
 Print Assumptions C13_chain_in_fat.
 (** a self-loop is reported as an error (no end-of-chain reached), not followed forever *)
-Example C13_cycle : chain_go 5 12 [4088; 4095; 2; 0; 0] 2 = ([2; 2; 2; 2; 2], false).
+Example C13_cycle : chain_go 5 12 4079 [4088; 4095; 2; 0; 0] 2 = ([2; 2; 2; 2; 2], false).
 Proof. vm_compute. reflexivity. Qed.
-Example C13_out_of_range : chain_go 5 12 [4088; 4095; 7; 0; 0] 2 = ([2], false).
+Example C13_out_of_range : chain_go 5 12 4079 [4088; 4095; 7; 0; 0] 2 = ([2], false).
 Proof. vm_compute. reflexivity. Qed.
 
 (** a chain the follower reports complete never visits a cluster twice (a cycle always ends in "not ok") *)
-Theorem C13_complete_chain_nodup : forall f t fat i l, chain_go f t fat i = (l, true) -> NoDup l.
+Theorem C13_complete_chain_nodup : forall f t dm fat i l, chain_go f t dm fat i = (l, true) -> NoDup l.
 Proof. exact chain_go_nodup. Qed.
 Print Assumptions C13_complete_chain_nodup.
 
